@@ -72,6 +72,8 @@ pub enum Driving {
     Breakpoints(Vec<u16>),
     BreakAlways,
     SoundOff,
+    /// sound generation switched by the host at frame boundaries: bit (frame mod 16) = enabled
+    SoundSwitch(u32),
     Drain(u32),
     Asset(AssetKind),
 }
@@ -345,6 +347,9 @@ fn run_driving(sc: Scenario, m128: bool, k: usize, d: &Driving, dev: Option<&mut
             }
             _ => {}
         }
+        if let Driving::SoundSwitch(p) = d {
+            e.set_sound(p & (1 << (e.verif_total_frames() % 16)) != 0);
+        }
         let before = e.verif_total_frames();
         let info = e.emulate_frames(limit).map_err(|er| format!("emulate_frames error {:?}", er))?;
         call += 1;
@@ -392,6 +397,22 @@ fn run_driving(sc: Scenario, m128: bool, k: usize, d: &Driving, dev: Option<&mut
         if per_frame_inputs {
             apply_inputs(&mut e, sc, after);
         }
+    }
+    if m128 {
+        // what the program would read back from the sound chip after the run (the read-back disturbs
+        // the machine, so it is taken once, at the very end, keyed by the number of frames run)
+        let frames_run = e.verif_total_frames();
+        // DI; LD HL,8100; LD D,0; LD BC,FFFD; loop: OUT (C),D; IN A,(C); LD (HL),A; INC HL; INC D; LD A,D; CP 16; JR NZ,loop; JR $
+        let prog: [u8; 24] = [0xF3, 0x21, 0x00, 0x81, 0x16, 0x00, 0x01, 0xFD, 0xFF, 0xED, 0x51, 0xED, 0x78, 0x77, 0x23, 0x14, 0x7A, 0xFE, 0x10, 0x20, 0xF4, 0x18, 0xFE, 0x00];
+        let pokes: Vec<rustzx_core::poke::PokeAction> = prog.iter().enumerate().map(|(i, b)| rustzx_core::poke::PokeAction::mem(0x8000 + i as u16, *b)).collect();
+        e.execute_poke(rig::PokeList(pokes));
+        e.verif_cpu().regs.set_pc(0x8000);
+        e.set_debug_interface(VDebug::at(&[]));
+        e.set_speed(EmulationMode::FrameCount(1));
+        rig::stopwatch_set(vec![], 0);
+        let _ = e.emulate_frames(limit);
+        let regs: Vec<u8> = (0..16u16).map(|i| e.peek(0x8100 + i)).collect();
+        out.insert((1u64 << 40) + frames_run, (crate::vcore::fnv(&regs), None));
     }
     Ok(out)
 }
@@ -536,6 +557,13 @@ pub fn run(tier: Tier, seed: u64, replay: Option<String>) -> i32 {
             compare(&ctx, sc, m128, &base, &g, &d, "sound-off");
             n += 1;
         }
+        // sound switched on and off by the host at frame boundaries
+        for p in [0b010101u32, 0b101010, 0b000111, 0b111000, 0b110011, 0b001100, 0xFFF8, 0x0FC0] {
+            let d = Driving::SoundSwitch(p);
+            let g = run_driving(sc, m128, k, &d, None);
+            compare(&ctx, sc, m128, &base, &g, &d, "sound-switched");
+            n += 1;
+        }
         let patterns: Vec<u32> = if thorough { (0..(1u32 << k.min(12))).step_by(7).collect() } else { (0..(1u32 << k)).collect() };
         for p in patterns {
             let d = Driving::Drain(p);
@@ -624,7 +652,7 @@ pub fn run(tier: Tier, seed: u64, replay: Option<String>) -> i32 {
     ctx.note("frames", json!(k));
     ctx.note("not_judged", json!("how many frames a Max-mode call emulates (the stopwatch decides); audio when it is not drained every frame or the call spans several frames"));
     ctx.finish(
-        "scenarios {ROM boot, ROM with keys pressed/released at frame boundaries, tape fast load with autoload, real-time tape load, AY/beeper tune snapshot (SNA), screen/border-writing program from an SZX snapshot with zlib pages, HALT loop in contended RAM recording R after every interrupt} x {48K,128K}, plus a program whose call of ROM LD-BYTES reaches the fast-load trap -6..+8 T around the end of a frame (event and frame/call end coincide; compositions of 4 frames, Max mode, breakpoints on the trap), and a 200-frame run in which a playing tape ends inside a call and the fast-load trap is reached later in the same call (calls of 200, 100, 50, 151+49, 1+199 frames); deviations from the default driving: every composition of the K frames into FrameCount(n) calls with the stopwatch always at 0 and always past the limit (each call must emulate exactly n frames), Max mode with every stopwatch reading chosen from {0, limit, limit+1 ns} within a deviation bound, breakpoint stops at subsets of 8 ROM addresses (incl. the fast-load trap address 056B) and at every instruction, sound off, every drain/no-drain pattern, the same file bytes through BufferCursor / chunked reads {1,2,3,127,128,129} / a real file / GzipAsset; at every frame boundary a driving stops at, the digest of registers, all RAM, paging, frame clock, both frame buffers (and audio where comparable) must equal the default driving's digest of that frame; the default is run twice. distinct_nontrivial = drivings executed",
+        "scenarios {ROM boot, ROM with keys pressed/released at frame boundaries, tape fast load with autoload, real-time tape load, AY/beeper tune snapshot (SNA), screen/border-writing program from an SZX snapshot with zlib pages, HALT loop in contended RAM recording R after every interrupt} x {48K,128K}, plus a program whose call of ROM LD-BYTES reaches the fast-load trap -6..+8 T around the end of a frame (event and frame/call end coincide; compositions of 4 frames, Max mode, breakpoints on the trap), and a 200-frame run in which a playing tape ends inside a call and the fast-load trap is reached later in the same call (calls of 200, 100, 50, 151+49, 1+199 frames); deviations from the default driving: every composition of the K frames into FrameCount(n) calls with the stopwatch always at 0 and always past the limit (each call must emulate exactly n frames), Max mode with every stopwatch reading chosen from {0, limit, limit+1 ns} within a deviation bound, breakpoint stops at subsets of 8 ROM addresses (incl. the fast-load trap address 056B) and at every instruction, sound off, sound switched on/off by the host at frame boundaries in 8 patterns, every drain/no-drain pattern, the same file bytes through BufferCursor / chunked reads {1,2,3,127,128,129} / a real file / GzipAsset; at every frame boundary a driving stops at, the digest of registers, all RAM, paging, frame clock, both frame buffers (and audio where comparable) must equal the default driving's digest of that frame, and on the 128K the 16 AY registers read back by the CPU after the run must equal those after the default driving; the default is run twice. distinct_nontrivial = drivings executed",
         false,
         &["frame boundaries are identified by the hook frame counter", "real file assets live under harness/target/c16-tmp and are unlinked immediately"],
     )
